@@ -113,6 +113,21 @@ class C02(Property):
                         cases.append(Case("%sy%d%s" % (gid, bj, tag), opts, argv,
                                           tags={"role": "bytes-" + tag, "group": gid, "pair": "%sy%d" % (gid, bj), "value": v, "form": form}))
                     bj += 1
+                # an argument restricted with `adjacent` accepts ONLY the spellings in which name and value are one item: the
+                # two-item spelling `--name V` / `-n V` of such an occurrence must not be accepted
+                aj = 0
+                for ix, p in enumerate(pieces):
+                    if p.kind != "chunk" or p.chunk.node["k"] != "arg" or not p.chunk.node["adjacent"] or p.chunk.value is None:
+                        continue
+                    if not common.standalone(p.chunk.value) or aj >= 2:
+                        continue
+                    n_ = p.chunk.node["n"]
+                    keys = [b"--" + l.encode() for l in n_["long"]] + [b"-" + c.encode() for c in n_["short"]]
+                    key = rng.choice(keys)
+                    argv = gen.flatten(pieces[:ix]) + [key, p.chunk.value] + gen.flatten(pieces[ix + 1:])
+                    cases.append(Case("%sa%d" % (gid, aj), opts, argv, tags={"role": "adjacent-sep", "group": gid, "key": key,
+                                                                            "value": p.chunk.value}))
+                    aj += 1
                 # clusters: merge runs of single short flags
                 argv2, merged = self.cluster(pieces)
                 if merged:
@@ -181,6 +196,13 @@ class C02(Property):
                     if role == "respell" else "clustering short flags %r" % (c.tags.get("letters"),)
                 out.append(Finding("violation", c, "%s changed the outcome: %s  vs  %s" % (
                     what, common.show(impl.get(b.id)), common.show(impl.get(c.id))), related=[b]))
+        for c in cases:
+            if c.tags.get("role") == "adjacent-sep":
+                dist["adjacent-sep"] = dist.get("adjacent-sep", 0) + 1
+                nontrivial.append(c.line())
+                if compare.impl_class(impl.get(c.id)) == "OK":
+                    out.append(Finding("violation", c, "an argument restricted with `adjacent` was given as two items (%r %r) and the line "
+                                                       "is accepted: %s" % (c.tags["key"], c.tags["value"], impl.get(c.id)[1][:300])))
         pairs = {}
         for c in cases:
             if c.tags.get("role", "").startswith("bytes-"):
